@@ -281,10 +281,17 @@ def check_consumers(run, F):
                    'hint < alloc < loop < set_len: %s; write+bump inside the loop in order: %s; '
                    'loop over `%s`' % (same, upper, order, inloop and w_before_bump, itsrc))
             if fn.name.startswith('try_'):
-                # `?` before the write: nothing is written after the first Err
-                tries = [x for x in walk(loops[0]) if x.get('k') == 'Match' and
-                         'TryDesugar' in x.get('src', '')]
-                t_ok = len(tries) == 1 and seqno[id(tries[0])] < seqno[id(writes[0])]
+                # nothing is written for an Err item and the Err leaves the function: either the
+                # item goes through `?` before the write, or the write sits in the Ok arm and the
+                # Err arm returns it
+                lt = dtree.body_table(fn.hir, loops[0], {})
+                w_rows = [(cs, l, ef) for cs, l, ef in lt if any('write(' in e for e in ef)]
+                e_rows = [(cs, l, ef) for cs, l, ef in lt if l.startswith(('Err(', 'v1::Err('))]
+                via_try = bool(w_rows) and all(any('write(' in e and '?' in e for e in ef) for cs, l, ef in w_rows)
+                via_match = bool(w_rows) and all(any(re.fullmatch(r'\w+ is (\w+::)*Ok\(_\)', c) for c in cs)
+                                                 for cs, l, ef in w_rows) and \
+                    len(e_rows) == 1 and not any('write(' in e for e in e_rows[0][2])
+                t_ok = via_try or via_match
                 ok = ok and t_ok
                 why += '; first Err returns before any further write: %s' % t_ok
         run.ob('TL.consumer', fn, '%s for %s' % (fn.name, head_type(fn.impl_self)), ok, fn.loc(), why)
